@@ -13,7 +13,7 @@ LEMMAS = {
     'C11': ['vspec::lemma_frame_step_progress', 'vspec::lemma_rec_step_progress'],
     'C12': ['vspec::lemma_parse_ser_items', 'vspec::lemma_rec_step_progress'],
     'C15': ['vspec::lemma_enc_len_bound', 'vspec::lemma_ser_entry_len'],
-    'C04': ['vspec::lemma_replay_items_is_append_all'],
+    'C04': ['vspec::lemma_replay_items_is_append_all', 'multi_record_log::lemma_covers', 'multi_record_log::lemma_wal_after_positions_push'],
 }
 
 PROPS = {
@@ -23,7 +23,7 @@ PROPS = {
                 'every mutator proved to write exactly the entry whose replay on the pre-state gives the post-state (O-C01-commute-*, O-C12-one); '
                 'entry codec proved inverse for all four kinds (lemma_parse_ser_entry, lemma_parse_ser_items); reader hands its exact cursor to the writer (O-C01-cursor).',
         kani_quick=[], kani_thorough=['K-mrs'],
-        trusted=[FS, 'MultiRecord::serialize (bounded K-mrs)', 'record_empty_queues_position (assumed contract)'],
+        trusted=[FS, 'MultiRecord::serialize (bounded K-mrs)', 'MemQueues::empty_queues (assumed: yields exactly the empty queues, each once)'],
         not_decided=['that GC never deletes a file still needed (Arc strong counts, see C06)', 'BufWriter flush on drop (std)',
                      'directory listing', 'the glue between the spec-level lemmas (L-C01 lemma_replay_history, L-C07 lemma_roundtrip_all) and the file system: that the blocks open() reads are the bytes the writer was handed (trusted FS layer)'],
     ),
@@ -40,10 +40,12 @@ PROPS = {
     'C04': dict(
         level='proof',
         explain='next position is monotone under every live operation (append: O-C05-append with pos >= next; truncate: QView::truncate never lowers next), '
-                'explicit stale positions are rejected (O-C04-past, O-C05-append-past), replay restores the next position (O-C09-ack, P-C01-replay-pos).',
+                'explicit stale positions are rejected (O-C04-past, O-C05-append-past), replay restores the next position (O-C09-ack, P-C01-replay-pos). '
+                'GC: record_empty_queues_position is verified to write a RecordPosition entry (name, next position) for EVERY empty queue and to fsync if it wrote anything (O-C04-gc-positions, O-repq-sync); '
+                'the WAL is synced before directory().gc() (O-C03-gc); gc() is called from nowhere else (O-gc-callsite); the current file stays pinned across the pass (O-C01-gc-pin).',
         kani_quick=[], kani_thorough=[],
-        trusted=[FS, 'record_empty_queues_position (assumed: a RecordPosition entry per empty queue, fsynced if anything was written)'],
-        not_decided=['"a Position entry for EVERY empty queue is written before any unlink": record_empty_queues_position is trusted', 'crash variants (C02)'],
+        trusted=[FS, 'MemQueues::empty_queues (assumed: yields exactly the empty queues, each once)'],
+        not_decided=['crash variants (C02)'],
     ),
     'C05': dict(
         level='proof',
@@ -51,7 +53,7 @@ PROPS = {
                 'over the whole view; range / get_range / position_to_idx / MultiRecord::serialize are bounded Kani stand-ins, never counted as proved.',
         kani_quick=[], kani_thorough=['K-getrange', 'K-p2i', 'K-range', 'K-mrs'],
         trusted=['RollingBuffer::get_range (bounded K-getrange)', 'MemQueue::position_to_idx (bounded K-p2i)', 'MemQueue::range (bounded K-range)',
-                 'MultiRecord::serialize (bounded K-mrs)', 'MemQueues::get_queue_mut (HashMap::get_mut)', 'RollingBuffer::extend'],
+                 'MultiRecord::serialize (bounded K-mrs)', 'HashMap::get_mut (assumed std contract)', 'RollingBuffer::extend'],
         not_decided=['summary, list_queues (iterator adapters over HashMap): unverified', 'MemQueues::range / MultiRecordLog::range one-line pass-throughs'],
     ),
     'C06': dict(
@@ -129,7 +131,7 @@ PROPS = {
         level='proof',
         explain='write_frame returns pad+7+len and appends exactly those bytes (O-C15-frame); write_record returns enc(..).len() (O-C15-record, loop invariant on the running sum); '
                 'each mutator returns wal.len() - old wal.len() including GC bytes (O-C15-api-*, O-C15-gc); 0 exactly on the C13 paths.',
-        kani_quick=[], kani_thorough=[], trusted=[FS + ' (RollingWriter::write appends exactly buf)', 'record_empty_queues_position (assumed: returns the bytes it appended)'],
+        kani_quick=[], kani_thorough=[], trusted=[FS + ' (RollingWriter::write appends exactly buf)'],
         not_decided=[],
     ),
     'C16': dict(
